@@ -124,7 +124,10 @@ Proof. exact apply_outcome_origin. Qed.
 Print Assumptions C02_apply_outcome_origin.
 
 (* in every step of every run from the initial state, SUCCESS and DISCARDED come out of the apply
-   phase of a tick and of nowhere else *)
+   phase of a tick and of nowhere else.  Message handling only produces LEADER_CHANGED (a new leader
+   shows up, or a late positive answer to a forwarded command whose index is already applied on the
+   requester) and the refusal code carried by a negative apply_command_response; API calls only
+   QUEUE_FULL *)
 Theorem C02_success_local :
   forall c evs g ev g' o,
   run_trace c ginit evs = Some g -> gstep c g ev = Some (g', o) -> step_outcomes_ok c g ev o.
